@@ -20,7 +20,7 @@ RULE = ("inputs: every example file lasio can read and write (skips counted by r
         "duplicated/blank/case-variant mnemonics, text curves, custom sections) and mutations of corpus files (duplicated and "
         "blanked mnemonics, '.1IN'-style units, emptied values, a STEP line without unit and value, very long fields) x writer option sets (default, version 1.2, "
         "version 2 wrapped, fmt %.2f, narrow data_width, mnemonics header) x 4 (quick) / 6 (thorough) load-save cycles. "
-        "distinct = distinct (input, mutation, option set); non-trivial = history that completed >= 2 cycles Added later: declared versions 1.0..3.0, WRAP spellings x 7..35 curves, digits-only units, nested bracket units, blank mnemonic with a float value, trailing empty ~Other lines, date-like text curves, zero-row objects, second NULL lines. Hunter rounds: literal files x writer options (duplicated WRAP / VERS lines, wrapped text samples starting with '#' / '~', tokens longer than data_width, mnemonics ending with a period, blank / multi-word NULL values, NaN in the index, bracketed units with periods, 7-decimal indexes, exponent-notation hyphens, quote characters) and histories by file NAME.")
+        "distinct = distinct (input, mutation, option set); non-trivial = history that completed >= 2 cycles Added later: declared versions 1.0..3.0, WRAP spellings x 7..35 curves, digits-only units, nested bracket units, blank mnemonic with a float value, trailing empty ~Other lines, date-like text curves, zero-row objects, second NULL lines. Hunter rounds: literal files x writer options (duplicated WRAP / VERS lines, wrapped text samples starting with '#' / '~', tokens longer than data_width, mnemonics ending with a period, blank / multi-word NULL values, NaN in the index, bracketed units with periods, 7-decimal indexes, exponent-notation hyphens, quote characters) and histories by file NAME. Round 8: header items whose unit is a decimal number on the widest line of their section; a DLM line stated twice.")
 ASSUMPTIONS = [
     "the first re-read l1 is the reference: precision lost by the chosen fmt in the first write is not drift",
     "inputs lasio cannot read, or whose first write() raises, are outside 'any input that lasio can read and then write' and are counted by reason",
